@@ -90,11 +90,11 @@ KeysOf(as) == {<<as[i].sec, as[i].key>> : i \in 1..Len(as)}
 Expected(text, sets, sec, key) == Lookup(Assigns(text) \o sets, sec, key)
 Touched(sets) == KeysOf(sets)
 
-\* comments and untouched entries, in file order
+\* comments (verbatim) and untouched entries (their section and key), in file order
 ItemsL(ls, touched) ==
     LET idx == SetToSortSeq({i \in 1..Len(ls) : IsComment(ls[i]) \/ (IsKV(ls[i]) /\ <<SecAt(ls, i), KeyOf(ls[i])>> \notin touched)}, <)
     IN [k \in 1..Len(idx) |-> IF IsComment(ls[idx[k]]) THEN [c |-> ls[idx[k]]]
-                              ELSE [sec |-> SecAt(ls, idx[k]), key |-> KeyOf(ls[idx[k]]), val |-> ValOf(ls[idx[k]])]]
+                              ELSE [sec |-> SecAt(ls, idx[k]), key |-> KeyOf(ls[idx[k]])]]
 
 \* (Assigns(text) \o sets is the history a reader must account for: later entries and later set() calls win)
 ValuesOK(text, sets, w) == LET at == Assigns(text) \o sets
